@@ -1,7 +1,7 @@
 """C19 Tags: explicit Tags win, otherwise one automatic tag per first path segment.
 
 (1) The real automatic-tag function (tagName . pathTagTitle, verif exports) on every first
-    segment over {_ % . sp a 2 F e-acute} up to the bound: TLC judges injectivity on the
+    segment over {_ % . sp a 2 5 0 F e-acute} up to the bound: TLC judges injectivity on the
     implementation's table (JSightText!TagJudge).
 (2) End to end: TLC-generated documents mixing method-level, URL-level and absent Tags for HTTP
     and JSON-RPC; the tag collection and every interaction's tag list must equal what the
@@ -15,7 +15,9 @@ import rel
 import textfn
 from common import Check, harness, seed
 
-SEG_ALPHA = ["_", "%", ".", " ", "a", "2", "F", "é", "/"]
+# "%" escapes to %25 and " " to %20: the digits that occur in escapes must be in the alphabet,
+# otherwise a literal "_25" can never meet an escaped "%"
+SEG_ALPHA = ["_", "%", ".", " ", "a", "2", "5", "0", "F", "é"]
 
 
 def tag_projection(cat):
